@@ -443,7 +443,17 @@ def _union_inv(L):
                                       pats=[[name]]))]
 
 
+def _remaining(L):
+    """termination measure of a loop that consumes the stream: the bytes left (bytesio model; an adversarial stream has no length,
+    there termination is not claimed)"""
+    o = L.obj('stream')
+    if getattr(o, 'model', None) == 'adv' or o.len is None:
+        return None
+    return t.sub(t.imax(o.len, o.pos), o.pos)
+
+
 CLASS_LOOPS = {
+    'construct.core:GreedyRange._parse': {'for i in itertools.count()': LoopSpec(lambda L: [], variant=_remaining, tags=('C06',), variant_tags=('C06',))},
     'construct.core:Union._parse': {'for (i, sc) in enumerate(self.subcons)': LoopSpec(_union_inv, tags=('C06',))},
     'construct.core:FocusedSeq._parse': {'for (i, sc) in enumerate(self.subcons)': LoopSpec(_focused_inv, tags=('C06',))},
     'construct.core:FocusedSeq._build': {'for (i, sc) in enumerate(self.subcons)': LoopSpec(_focused_inv, tags=('C06',))},
@@ -496,7 +506,7 @@ def generic_contracts(src):
             pm = () if kind in ('parse', 'adapt', 'sizeof') else None
             c.default_loop = LoopSpec(lambda L: [], tags=('C06',), modifies=pm)
             if qual in CLASS_LOOPS:
-                c.loops = {k2: LoopSpec(v2.inv, tags=v2.tags, modifies=pm) for k2, v2 in CLASS_LOOPS[qual].items()}
+                c.loops = {k2: LoopSpec(v2.inv, variant=v2.variant, variant_tags=v2.variant_tags, tags=v2.tags, modifies=pm) for k2, v2 in CLASS_LOOPS[qual].items()}
             if abstract:
                 # subclass responsibility: used at call sites as the interface clause, never verified against the raise-stub
                 c.setup = None
